@@ -15,7 +15,7 @@
                                       bootstrap connection) *)
 From AV Require Import Base.Util Model.Framing Proofs.BrokerClientInv.
 From AV Require Model.BrokerClient.
-From AV Require Import Model.ClientReq Proofs.ClientReqClosed Proofs.ClientReqC20.
+From AV Require Import Model.ClientReq Proofs.ClientReqClosed Proofs.ClientReqC20 Proofs.ClientReqC20b.
 
 (* New work after close() is refused, in ANY state with the closed flag set: a request to a known broker raises ClientError
    and changes nothing ... *)
@@ -79,6 +79,41 @@ Theorem C20_no_connect_no_write_after_close : forall g evs cl C1 o1 evs2 C2 o2,
 Proof. exact c20_no_connect_no_write. Qed.
 Print Assumptions C20_no_connect_no_write_after_close.
 
+(* The Deferred returned by close() (c_wait C = true: it has been handed out and has not fired; c_clients = None and
+   c_wait = false: it has fired).  In EVERY reachable state:
+   - it is pending only for a closed client;
+   - every broker client that is still closing (close() called, down-notification outstanding) - including those retired
+     by an earlier metadata refresh - is awaited by self.close_dlist;
+   - NOT BEFORE: once it has fired, every broker client ever created has delivered its down-notification and has no
+     connection;
+   - ONCE: after it has fired it never fires again, whatever happens.
+   PARTIAL: that it DOES fire as soon as the last broker client is down (no starvation) is checked by the monitor on the
+   implementation and by the correspondence, not proved. *)
+Theorem C20_close_pending_only_when_closed : forall g evs,
+  c_wait (fst (run (init g) evs)) = true -> c_clients (fst (run (init g) evs)) = None.
+Proof. exact c20_wait_means_closed. Qed.
+Print Assumptions C20_close_pending_only_when_closed.
+
+Theorem C20_close_awaits_every_closing_client : forall g evs i b,
+  nth_error (c_bcs (fst (run (init g) evs))) i = Some b ->
+  BrokerClient.s_down (b_st b) = BrokerClient.DPending ->
+  exists l, c_dl (fst (run (init g) evs)) = Some l /\ In i l.
+Proof. exact c20_dl_awaits_closing. Qed.
+Print Assumptions C20_close_awaits_every_closing_client.
+
+Theorem C20_close_fires_last_partial : forall g evs,
+  c_clients (fst (run (init g) evs)) = None -> c_wait (fst (run (init g) evs)) = false ->
+  forall i b, nth_error (c_bcs (fst (run (init g) evs))) i = Some b ->
+    BrokerClient.s_down (b_st b) = BrokerClient.DFired /\ BrokerClient.s_proto (b_st b) = false.
+Proof. exact c20_fired_all_gone. Qed.
+Print Assumptions C20_close_fires_last_partial.
+
+Theorem C20_close_fires_once : forall g evs evs2,
+  c_clients (fst (run (init g) evs)) = None -> c_wait (fst (run (init g) evs)) = false ->
+  ~ In OCloseFired (snd (run (fst (run (init g) evs)) evs2)) /\ c_wait (fst (run (fst (run (init g) evs)) evs2)) = false.
+Proof. exact c20_fires_once_reachable. Qed.
+Print Assumptions C20_close_fires_once.
+
 (* F-C20-2, first half.  "Every request in progress fails" is FALSE of the faithful model (and of the code): a
    load_metadata_for_topics() that is bootstrapping when close() is called resolves with None - a success. *)
 Theorem C20_pending_fail_refuted : exists g evs,
@@ -129,4 +164,13 @@ Example closed_state_nonvacuous :
                                    EUpdate [(2, 6)] true; EClose]) in
   c_clients C = None /\ c_topics C = [] /\ map o_phase (c_ops C) = []
   /\ map (fun b => BrokerClient.s_down (b_st b)) (c_bcs C) = [BrokerClient.DPending; BrokerClient.DPending].
+Proof. vm_compute. repeat split. Qed.
+
+(* while the refreshed-out broker client (index 0) and the client's own (index 1) are still closing, the close Deferred is
+   pending and self.close_dlist awaits both; after the first loss it still awaits the other *)
+Example close_waits_nonvacuous :
+  let pre := [EUpdate [(1, 5); (2, 6)] false; ESend 1 true (-1); ESend 2 true (-1); EConnOk 0; EConnOk 1; EUpdate [(2, 6)] true; EClose] in
+  c_wait (fst (run (init ex_cfg) pre)) = true /\ c_dl (fst (run (init ex_cfg) pre)) = Some [0%nat; 1%nat]
+  /\ c_wait (fst (run (init ex_cfg) (pre ++ [ELost 1]))) = true /\ c_dl (fst (run (init ex_cfg) (pre ++ [ELost 1]))) = Some [0%nat]
+  /\ c_wait (fst (run (init ex_cfg) (pre ++ [ELost 1; ELost 0]))) = false.
 Proof. vm_compute. repeat split. Qed.
